@@ -11,10 +11,7 @@ Currently supports the zkinterface and zkifbellman backends
 """
 
 # Load Poseidon parameters
-try:
-    backend = os.environ["PYSNARK_BACKEND"]
-except KeyError:
-    backend = "nobackend"
+backend = runtime.backend_name
 
 if backend in poseidon_constants:
     constants = poseidon_constants[backend]
